@@ -60,8 +60,24 @@ class HarnessBase:
     def unsupported_is_benign(self, res):
         return False
 
+    def boundary_excuse(self, sym_out, conc_out):
+        return False
+
 
 # ----------------------------------------------------------------------------
+def raised_by_harness(e):
+    """did the exception originate in the harness/oracle code (a bug of the machinery, never a finding)?"""
+    tb = e.__traceback__
+    last = None
+    while tb is not None:
+        last = tb
+        tb = tb.tb_next
+    if last is None:
+        return False
+    fn = last.tb_frame.f_code.co_filename
+    return '/props/' in fn or '/oracles/' in fn or fn.endswith('symx/harness.py') or fn.endswith('symx/ob.py')
+
+
 def flatten(x, prefix='', out=None):
     if out is None:
         out = {}
@@ -106,7 +122,10 @@ def run_concrete(h, values):
     except (Unsupported, DomainEvent, Pruned) as e:
         out = Outcome('exc', exc=RuntimeError('engine exception in concrete mode: %r' % (e,)))
     except Exception as e:  # noqa
-        out = Outcome('exc', exc=e)
+        if raised_by_harness(e):
+            out = Outcome('exc', exc=RuntimeError('harness bug in concrete mode: %s: %s' % (type(e).__name__, e)))
+        else:
+            out = Outcome('exc', exc=e)
     return out, env
 
 
@@ -197,7 +216,8 @@ def process(h, want_functions=False):
                                  % (eng.stats['paths'], time.time() - t0))
     candidates = []
     nval = 0
-    for res in results:
+    stride = max(1, len(results) // max(1, h.validate_max))
+    for ridx, res in enumerate(results):
         R['paths'] += 1
         if res.status == 'pruned':
             R['pruned'] += 1
@@ -218,6 +238,9 @@ def process(h, want_functions=False):
                 R['inconclusive'].append('%s path: %s (concrete replay passed)' % (res.status, res.exc))
             continue
         out = Outcome('ok', value=res.value) if res.status == 'ok' else Outcome('exc', exc=res.exc)
+        if res.status == 'exc' and raised_by_harness(res.exc):
+            R['inconclusive'].append('harness bug: %s: %s' % (type(res.exc).__name__, res.exc))
+            continue
         if res.status == 'ok':
             R['ok_paths'] += 1
         else:
@@ -239,16 +262,23 @@ def process(h, want_functions=False):
                     R['triggers'][ob.family] = R['triggers'].get(ob.family, 0) + 1
             elif ob.trigger is None:
                 R['triggers'][ob.family] = R['triggers'].get(ob.family, 0) + 1
-        # stage 1: all exact at once
+        # stage 1: all exact at once; stage 2: all robust at once; then one by one
         if obs:
-            conj = z3.And([ob.formula() for ob in obs]) if len(obs) > 1 else obs[0].formula()
+            conj = z3.And([ob.first() for ob in obs]) if len(obs) > 1 else obs[0].first()
             r, m = eng.decide(res, conj)
             if r == 'unsat':
+                nrob = sum(1 for ob in obs if ob.prefer_robust)
                 R['discharged'] += len(obs)
-                R['discharged_exact'] += len(obs)
+                R['discharged_exact'] += len(obs) - nrob
+                R['discharged_robust'] += nrob
             else:
-                for ob in obs:
-                    r1, m1 = eng.decide(res, ob.formula())
+                sus, bulk = _split(eng, res, obs)
+                R['discharged'] += bulk
+                R['discharged_exact'] += bulk
+                for ob in sus:
+                    r1 = 'sat'
+                    if not ob.prefer_robust:
+                        r1, m1 = eng.decide(res, ob.formula())
                     if r1 == 'unsat':
                         R['discharged'] += 1
                         R['discharged_exact'] += 1
@@ -257,22 +287,26 @@ def process(h, want_functions=False):
                     if r2 == 'unsat':
                         R['discharged'] += 1
                         R['discharged_robust'] += 1
+                        R.setdefault('robust_families', {})
+                        R['robust_families'][ob.family] = R['robust_families'].get(ob.family, 0) + 1
                     elif r2 == 'sat':
                         candidates.append((res, ob, model_to_floats(eng, m2), False))
                     else:
                         R['inconclusive'].append('solver unknown on %s' % ob.name)
         # trace validation against the implementation
-        if nval < h.validate_max:
+        if nval < h.validate_max and ridx % stride == 0:
             nval += 1
             model, interior = interior_model(eng, res)
             vals = model_to_floats(eng, model)
-            if not path_holds_on_floats(res, eng, vals):
+            if not interior or not path_holds_on_floats(res, eng, vals):
                 R['validation_boundary'] += 1
             else:
                 cout, cenv = run_concrete(h, vals)
                 ok, why = _compare(out, cout, model)
                 if ok:
                     R['validated'] += 1
+                elif h.boundary_excuse(out, cout):
+                    R['validation_boundary'] += 1
                 else:
                     R['inconclusive'].append('trace validation mismatch (engine/stub vs implementation): %s'
                                              % why)
@@ -309,6 +343,23 @@ def process(h, want_functions=False):
     R['stats'] = dict(eng.stats)
     R['wall_s'] = time.time() - t0
     return R
+
+
+def _split(eng, res, obs):
+    """bisect a failing conjunction: returns (obligations still to be decided one by one, number discharged in bulk)"""
+    if len(obs) <= 4:
+        return list(obs), 0
+    mid = len(obs) // 2
+    sus, bulk = [], 0
+    for part in (obs[:mid], obs[mid:]):
+        r, _ = eng.decide(res, z3.And([ob.first() for ob in part]))
+        if r == 'unsat':
+            bulk += len(part)
+        else:
+            s2, b2 = _split(eng, res, part)
+            sus += s2
+            bulk += b2
+    return sus, bulk
 
 
 def _round(d):
